@@ -35,7 +35,10 @@ def register(reg: Registry) -> None:
             "SourceMapBuilder._pos_marks": "list[SourceMapPositionMark]",
             "SourceMapBuilder._pos_marks_macros": "list[Any]",
             "SourceMapBuilder._macro_context__stack": "list[tuple[int, Any]]",
-            "SourceMapBuilder._next_macro_called_in": "Any",
+            "SourceMapBuilder._next_macro_called_in": "tuple[str | None, int, int] | None",
+            "SourceMapping.line": "int", "SourceMapping.column": "int",
+            "MacroSourceMapping.relpath_included_file": "str | None", "MacroSourceMapping.macro_name": "str",
+            "MacroSourceMapping.called_in": "tuple[str | None, int, int] | None",
         }
     )
     reg.spec_fn("inj", ["m"], "all_int(lambda a, b: implies(a in m and b in m and m[a] == m[b], a == b))")
@@ -77,7 +80,7 @@ def register(reg: Registry) -> None:
         SM + ":SourceMapping.deserialize",
         types={"data_list": "list[Any]"},
         returns="SourceMapping",
-        requires=["len(data_list) >= 2"],
+        requires=["len(data_list) >= 2", "is_int(data_list[0]) and is_int(data_list[1])"],
         ensures=["fresh(result)", "type_is(result, SourceMapping)", "result.line is data_list[0]", "result.column is data_list[1]"],
         modifies=["alloc"],
         canaries=["result.line is data_list[1]"],
@@ -97,7 +100,10 @@ def register(reg: Registry) -> None:
         SM + ":MacroSourceMapping.deserialize",
         types={"data_list": "list[Any]"},
         returns="MacroSourceMapping",
-        requires=["len(data_list) >= 7", "is_none(data_list[5]) or is_int(data_list[5])"],
+        requires=["len(data_list) >= 7", "is_none(data_list[5]) or is_int(data_list[5])",
+                  # a well-typed entry as written by serialize (call sites come back from JSON as lists)
+                  "is_none(data_list[0]) or is_str(data_list[0])", "is_str(data_list[1])", "is_int(data_list[2]) and is_int(data_list[3])",
+                  "has_type(data_list[4], 'tuple[str | None, int, int] | None')"],
         ensures=["fresh(result)", "type_is(result, MacroSourceMapping)"] + [f"result.{f} is data_list[{i}]" for i, f in enumerate(mm_fields)],
         modifies=["alloc"],
         canaries=["result.return_addr is data_list[4]"],
